@@ -61,6 +61,13 @@ def pick {α} (l : List α) (ps : List Nat) : List α := ps.filterMap (l[·]?)
 
 /-! ### Arrays and the heap -/
 
+/-- scale classes (`type(self)`: `UtcTime`, `TaiTime`, `GpsTime`, …) and formats are small numbers; the two that
+matter for behaviour are named -/
+def clsGps : Nat := 2
+def fmtJd : Nat := 0
+/-- `gps_ws` (three columns; only available in the gps scale, like `gps_seconds`) -/
+def fmtGpsWs : Nat := 2
+
 structure Arr where
   vals : List Nat
   jd1 : List Nat
@@ -69,6 +76,10 @@ structure Arr where
   scalar : Bool := false
   /-- `_jd1_sliced`, `_jd2_sliced` left on this array by its `__getitem__` -/
   pending : Option (List Nat × List Nat) := none
+  /-- the scale class `type(self)` -/
+  cls : Nat := 0
+  /-- `self.fmt` -/
+  fmt : Nat := 0
   deriving Repr, DecidableEq
 
 /-- what a caller can observe of an array -/
@@ -77,20 +88,44 @@ structure Obs where
   jd1 : List Nat
   jd2 : List Nat
   scalar : Bool
+  cls : Nat := 0
+  fmt : Nat := 0
   deriving Repr, DecidableEq
 
-def Arr.obs (a : Arr) : Obs := ⟨a.vals, a.jd1, a.jd2, a.scalar⟩
+def Arr.obs (a : Arr) : Obs := ⟨a.vals, a.jd1, a.jd2, a.scalar, a.cls, a.fmt⟩
 
 def Obs.aligned (o : Obs) : Prop := o.vals = o.jd1 ∧ o.jd1 = o.jd2
 
 abbrev Heap := List Arr
 
+/-- first entry of a tuple index -/
+inductive First
+  | int (i : Int)
+  | sel (s : Sel)
+  deriving Repr, DecidableEq
+
+def First.positions (n : Nat) : First → Option (List Nat)
+  | .int i => (normIdx n i).map ([·])
+  | .sel s => s.positions n
+
+/-- NumPy functions that make a new array of *all* values of `t` and then fail, because the array
+`__array_finalize__` has just frozen cannot be filled (`flatten`, `astype`, `np.unique`), or that fail before
+any array is made (`np.sort`: `TimeBase.__copy__` takes no `order`) -/
+inductive Refused
+  | flatten | astype | unique | sort
+  deriving Repr, DecidableEq
+
+/-- does NumPy create (and drop) a temporary through `__array_finalize__(t)` before the refusal? -/
+def Refused.makesTemp : Refused → Bool
+  | .sort => false
+  | _ => true
+
 inductive Op
   /-- `t[i]` -/
   | getInt (t : Nat) (i : Int)
-  /-- `t[a:b:c]`, `t[mask]`, `t[[...]]` -/
+  /-- `t[a:b:c]`, `t[mask]`, `t[[...]]`, and the same as one-entry tuples `t[(sel,)]`, `t[sel, ...]` -/
   | getSel (t : Nat) (s : Sel)
-  /-- `t.view()`, `t.T`, `t.reshape(n)`, `np.add(t, 0)`: NumPy builds a new array of the same
+  /-- `t.view()`, `t.T`, `t.reshape(n)`, `t.ravel()`, `np.add(t, 0)`: NumPy builds a new array of the same
   values and calls `__array_finalize__(t)` without going through `__getitem__` -/
   | view (t : Nat)
   /-- `t.copy()`, `copy.copy(t)`, `copy.deepcopy(t)`: rebuilt through `__new__` with explicit jd -/
@@ -99,18 +134,40 @@ inductive Op
   | subset (t : Nat) (s : Sel)
   /-- `TimeArray.insert(a, pos, b, memo)` -/
   | insert (a : Nat) (pos : Int) (b : Nat)
-  /-- `t.tai` … : new array from the converted jd parts, element by element -/
-  | scale (t : Nat)
+  /-- `t.<scale>` : new array from the converted jd parts, element by element (`target` = class of the scale asked
+  for; the scale the array is in already gives back the object itself) -/
+  | scale (t : Nat) (target : Nat)
   /-- `for x in t` -/
   | iter (t : Nat)
   /-- `t[k] = v`, `t.fmt = v`: refused -/
   | set (t : Nat)
+  /-- a tuple index NumPy refuses as a whole *after* `__getitem__` has sliced the jd parts by its first entry:
+  `t[first, 0]` on a one-column array (too many indices), `g[first, 3]` on a three-column one (column out of
+  bounds) -/
+  | getBad (t : Nat) (f : First)
+  /-- `t.squeeze()` with nothing to squeeze: NumPy hands back the object itself -/
+  | same (t : Nat)
+  /-- `t.flatten()`, `t.astype(float)`, `np.unique(t)`, `np.sort(t)`: refused -/
+  | refused (t : Nat) (f : Refused)
+  /-- `np.concatenate([t, u, …])`, `np.append(t, u)` (`append`): a plain `ndarray` of the values, not a time array;
+  `np.append` first ravels its second argument: a temporary made through `__array_finalize__(u)` -/
+  | concat (ts : List Nat) (append : Bool)
   deriving Repr, DecidableEq
 
 inductive Out
   | arr (o : Obs)
   | many (os : List Obs)
   | error
+  /-- a plain `ndarray` holding these values -/
+  | plain (vals : List Nat)
+  deriving Repr, DecidableEq
+
+/-- how the array an operation returns came into being (what `__array_finalize__` was called with) -/
+inductive Hook
+  /-- `__array_finalize__(obj)` with `obj` a plain `ndarray`: built by `__new__` with explicit jd parts -/
+  | plain
+  /-- `__array_finalize__(heap[t])`; `handover`: the side channel was set on `t` at that moment -/
+  | parent (t : Nat) (handover : Bool)
   deriving Repr, DecidableEq
 
 /-- `np.insert(l, pos, m)`: negative positions count from the end, positions beyond the end are errors -/
@@ -120,11 +177,11 @@ def insertAt (pos : Int) (l m : List Nat) : Option (List Nat) :=
   if 0 ≤ p ∧ p ≤ n then some (l.take p.toNat ++ m ++ l.drop p.toNat) else none
 
 /-- `__array_finalize__(parent)`: the new array takes `pending` if there is one, the parent's
-full jd lists otherwise -/
+full jd lists otherwise; format and class are the parent's -/
 def finalize (parent : Arr) (newVals : List Nat) (scalar : Bool) : Arr :=
   match parent.pending with
-  | some (p1, p2) => { vals := newVals, jd1 := p1, jd2 := p2, scalar := scalar }
-  | none => { vals := newVals, jd1 := parent.jd1, jd2 := parent.jd2, scalar := scalar }
+  | some (p1, p2) => { vals := newVals, jd1 := p1, jd2 := p2, scalar := scalar, cls := parent.cls, fmt := parent.fmt }
+  | none => { vals := newVals, jd1 := parent.jd1, jd2 := parent.jd2, scalar := scalar, cls := parent.cls, fmt := parent.fmt }
 
 def setAt (h : Heap) (k : Nat) (a : Arr) : Heap := h.set k a
 
@@ -143,86 +200,164 @@ def getIntStep (clear : Bool) (h : Heap) (t : Nat) (i : Int) : Heap × Option Ar
       let p1 := pick a.jd1 [k]
       let p2 := pick a.jd2 [k]
       let a' : Arr := { a with pending := some (p1, p2) }
-      -- from_jds(_jd1_sliced, _jd2_sliced): values are recomputed from the jd parts
-      let r : Arr := { vals := p1, jd1 := p1, jd2 := p2, scalar := true }
+      -- from_jds(_jd1_sliced, _jd2_sliced, self.fmt): values are recomputed from the jd parts
+      let r : Arr := { vals := p1, jd1 := p1, jd2 := p2, scalar := true, cls := a.cls, fmt := a.fmt }
       (setAt h t (afterGet clear a'), some r)
 
-def step (clear : Bool) (h : Heap) : Op → Heap × Out
+/-- the format a conversion to the scale class `target` ends in: formats of the gps scale only fall back to `jd` -/
+def fmtAfterScale (fmt target : Nat) : Nat := if fmt = fmtGpsWs ∧ target ≠ clsGps then fmtJd else fmt
+
+/-- result of one operation: the heap afterwards, what the caller sees, and the `__array_finalize__` calls made on
+the way (in order) -/
+structure Res where
+  heap : Heap
+  out : Out
+  hooks : List Hook := []
+
+def step (clear : Bool) (h : Heap) : Op → Res
   | .getInt t i =>
     match getIntStep clear h t i with
-    | (h', some r) => (h' ++ [r], .arr r.obs)
-    | (h', none) => (h', .error)
+    | (h', some r) => ⟨h' ++ [r], .arr r.obs, [.plain]⟩
+    | (h', none) => ⟨h', .error, []⟩
   | .getSel t s =>
     match h[t]? with
-    | none => (h, .error)
+    | none => ⟨h, .error, []⟩
     | some a =>
-      if a.scalar then (h, .error) else
+      if a.scalar then ⟨h, .error, []⟩ else
       match s.positions a.vals.length, s.positions a.jd1.length with
       | some pv, some pj =>
         let a' : Arr := { a with pending := some (pick a.jd1 pj, pick a.jd2 pj) }
         let r := finalize a' (pick a.vals pv) false
-        (setAt h t (afterGet clear a') ++ [r], .arr r.obs)
-      | _, _ => (h, .error)
+        ⟨setAt h t (afterGet clear a') ++ [r], .arr r.obs, [.parent t true]⟩
+      | _, _ => ⟨h, .error, []⟩
   | .view t =>
     match h[t]? with
-    | none => (h, .error)
-    | some a => let r := finalize a a.vals a.scalar; (h ++ [r], .arr r.obs)
+    | none => ⟨h, .error, []⟩
+    | some a => let r := finalize a a.vals a.scalar; ⟨h ++ [r], .arr r.obs, [.parent t a.pending.isSome]⟩
   | .copy t =>
     match h[t]? with
-    | none => (h, .error)
-    | some a => let r : Arr := { vals := a.vals, jd1 := a.jd1, jd2 := a.jd2, scalar := a.scalar }
-                (h ++ [r], .arr r.obs)
+    | none => ⟨h, .error, []⟩
+    | some a => let r : Arr := { vals := a.vals, jd1 := a.jd1, jd2 := a.jd2, scalar := a.scalar, cls := a.cls, fmt := a.fmt }
+                ⟨h ++ [r], .arr r.obs, [.plain]⟩
   | .subset t s =>
     match h[t]? with
-    | none => (h, .error)
+    | none => ⟨h, .error, []⟩
     | some a =>
-      if a.scalar then (h, .error) else
+      if a.scalar then ⟨h, .error, []⟩ else
       match s.positions a.vals.length, s.positions a.jd1.length with
       | some pv, some pj =>
-        let r : Arr := { vals := pick a.vals pv, jd1 := pick a.jd1 pj, jd2 := pick a.jd2 pj }
-        (h ++ [r], .arr r.obs)
-      | _, _ => (h, .error)
+        let r : Arr := { vals := pick a.vals pv, jd1 := pick a.jd1 pj, jd2 := pick a.jd2 pj, cls := a.cls, fmt := a.fmt }
+        ⟨h ++ [r], .arr r.obs, [.plain]⟩
+      | _, _ => ⟨h, .error, []⟩
   | .insert ta pos tb =>
     match h[ta]?, h[tb]? with
     | some a, some b =>
-      if a.scalar then (h, .error) else
+      if a.scalar then ⟨h, .error, []⟩ else
       match insertAt pos a.vals b.vals, insertAt pos a.jd1 b.jd1, insertAt pos a.jd2 b.jd2 with
       | some v, some j1, some j2 =>
-        let r : Arr := { vals := v, jd1 := j1, jd2 := j2 }
-        (h ++ [r], .arr r.obs)
-      | _, _, _ => (h, .error)
-    | _, _ => (h, .error)
-  | .scale t =>
+        let r : Arr := { vals := v, jd1 := j1, jd2 := j2, cls := a.cls, fmt := a.fmt }
+        ⟨h ++ [r], .arr r.obs, [.plain]⟩
+      | _, _, _ => ⟨h, .error, []⟩
+    | _, _ => ⟨h, .error, []⟩
+  | .scale t target =>
     match h[t]? with
-    | none => (h, .error)
+    | none => ⟨h, .error, []⟩
     | some a =>
+      if target = a.cls then ⟨h ++ [a], .arr a.obs, []⟩ else
       -- hop functions act elementwise on (jd1, jd2); values are recomputed from the new jd parts
-      let r : Arr := { vals := a.jd1, jd1 := a.jd1, jd2 := a.jd2, scalar := a.scalar }
-      (h ++ [r], .arr r.obs)
+      let r : Arr := { vals := a.jd1, jd1 := a.jd1, jd2 := a.jd2, scalar := a.scalar, cls := target, fmt := fmtAfterScale a.fmt target }
+      ⟨h ++ [r], .arr r.obs, [.plain]⟩
   | .iter t =>
     match h[t]? with
-    | none => (h, .error)
+    | none => ⟨h, .error, []⟩
     | some a =>
-      if a.scalar then (h, .error) else
+      if a.scalar then ⟨h, .error, []⟩ else
       let res := (List.range a.jd1.length).foldl
         (fun (acc : Heap × List Obs) (k : Nat) =>
           match getIntStep clear acc.1 t (k : Int) with
           | (h', some r) => (h' ++ [r], acc.2 ++ [r.obs])
           | (h', none) => (h', acc.2))
         (h, [])
-      (res.1, .many res.2)
-  | .set _ => (h, .error)
+      ⟨res.1, .many res.2, res.2.map fun _ => .plain⟩
+  | .set _ => ⟨h, .error, []⟩
+  | .getBad t f =>
+    match h[t]? with
+    | none => ⟨h, .error, []⟩
+    | some a =>
+      if a.scalar then ⟨h, .error, []⟩ else
+      match f.positions a.jd1.length with
+      -- `self.jd1[first]` raises before anything is stored
+      | none => ⟨h, .error, []⟩
+      -- the jd parts are stored on `t`, then `ndarray.__getitem__` raises; no array is made
+      | some pj => ⟨setAt h t (afterGet clear { a with pending := some (pick a.jd1 pj, pick a.jd2 pj) }), .error, []⟩
+  | .same t =>
+    match h[t]? with
+    | none => ⟨h, .error, []⟩
+    | some a => ⟨h ++ [a], .arr a.obs, []⟩
+  | .refused t f =>
+    match h[t]? with
+    | none => ⟨h, .error, []⟩
+    | some a => ⟨h, .error, if f.makesTemp then [.parent t a.pending.isSome] else []⟩
+  | .concat ts append =>
+    match ts.mapM (h[·]?) with
+    | none => ⟨h, .error, []⟩
+    | some as =>
+      ⟨h, .plain (as.flatMap (·.vals)),
+        match append, ts, as with
+        | true, [_, u], [_, b] => [.parent u b.pending.isSome]
+        | _, _, _ => []⟩
 
-def run (clear : Bool) (h : Heap) : List Op → Heap × List Out
-  | [] => (h, [])
+structure RunRes where
+  heap : Heap
+  outs : List Out
+  hooks : List (List Hook)
+
+def run (clear : Bool) (h : Heap) : List Op → RunRes
+  | [] => ⟨h, [], []⟩
   | op :: ops =>
-    let (h1, o) := step clear h op
-    let (h2, os) := run clear h1 ops
-    (h2, o :: os)
+    let r := step clear h op
+    let rs := run clear r.heap ops
+    ⟨rs.heap, r.out :: rs.outs, r.hooks :: rs.hooks⟩
 
 /-- a freshly constructed array of `n` epochs with tags `base, base+1, …` -/
-def fresh (base n : Nat) : Arr :=
+def fresh (base n : Nat) (cls fmt : Nat := 0) : Arr :=
   let tags := (List.range n).map (· + base)
-  { vals := tags, jd1 := tags, jd2 := tags }
+  { vals := tags, jd1 := tags, jd2 := tags, cls := cls, fmt := fmt }
+
+/-! ### `__eq__` and `__hash__`
+
+`attrs` is what the two methods can read of an array; which of them they *do* read is generated from the source
+(`Generated.TimeArrayMech.hashReads`, `eqCompares`, `eqShapeGuard`) and passed in as lists of names. -/
+
+inductive AttrVal
+  /-- the numbers that stand for these epochs in the scale of class `cls` (the same epoch has other jd numbers in
+  another scale) -/
+  | nums (cls : Nat) (l : List Nat)
+  | id (n : Nat)
+  | shape (scalar : Bool) (n : Nat)
+  | unknown (name : String)
+  deriving Repr, DecidableEq
+
+def Arr.attr (a : Arr) (name : String) : AttrVal :=
+  if name = "jd1" then .nums a.cls a.jd1
+  else if name = "jd2" then .nums a.cls a.jd2
+  else if name = "__class__" ∨ name = "scale" then .id a.cls
+  else if name = "fmt" then .id a.fmt
+  else if name = "val" then .nums a.cls a.vals
+  else .unknown name
+
+def Arr.shapeOf (a : Arr) (name : String) : AttrVal :=
+  if name = "jd1" then .shape a.scalar a.jd1.length
+  else if name = "jd2" then .shape a.scalar a.jd2.length
+  else if name = "val" then .shape a.scalar a.vals.length
+  else .unknown name
+
+/-- `a == b`: `isinstance(other, self.__class__)`, the shape guard, then `np.all(self.x == other.x)` for every
+compared attribute -/
+def pyEq (shapeGuard compares : List String) (a b : Arr) : Bool :=
+  shapeGuard.all (fun x => a.shapeOf x == b.shapeOf x) && compares.all (fun x => a.attr x == b.attr x)
+
+/-- everything `hash(a)` is computed from -/
+def hashKey (reads : List String) (a : Arr) : List AttrVal := reads.map a.attr
 
 end Midgard.TimeArrayHist
